@@ -1,5 +1,10 @@
 //! vcheck <ID> [--tier quick|thorough] [--replay <file>]
 mod c01;
+mod c02;
+mod c05;
+mod c06;
+mod c18;
+mod c19;
 mod common;
 
 use std::path::PathBuf;
@@ -20,6 +25,36 @@ fn registry(id: &str) -> Option<PropDef> {
                 "ring-role clause asserted only where the signed area is exactly computable (dyadic coordinates) and non-zero",
                 "shapes are built through public constructors honouring their documented preconditions (polyline parts >= 2 points, non-empty first ring/patch)",
             ],
+        },
+        "C02" => PropDef {
+            level: "exploration",
+            subs: vec![random::<c02::WellFormed>()],
+            assumptions: vec!["the strict decoder in vlib/refcodec.rs (written from the ESRI whitepaper, pinned to the third-party fixtures at start-up) is the reference"],
+        },
+        "C04" => PropDef {
+            level: "exploration",
+            subs: vec![random::<c02::IndexAddresses>()],
+            assumptions: vec!["record offsets come from the independent strict decoder"],
+        },
+        "C05" => PropDef {
+            level: "exploration",
+            subs: vec![random::<c05::Boxes>()],
+            assumptions: vec!["coordinates are never NaN (the property excludes NaN)", "no claim for the header M range of multipatch files or files containing no-data measures"],
+        },
+        "C06" => PropDef {
+            level: "exploration",
+            subs: vec![random::<c06::Typed>()],
+            assumptions: vec!["the 13 x 14 (requested, actual) matrix is covered completely by every generated file; file contents are sampled"],
+        },
+        "C18" => PropDef {
+            level: "exploration",
+            subs: vec![enumerated::<c18::SizeGrid>(), random::<c18::SizeRandom>()],
+            assumptions: vec!["the dense grid is complete within its stated bounds; larger shapes are sampled"],
+        },
+        "C19" => PropDef {
+            level: "exploration",
+            subs: vec![Box::new(c19::CodeTable)],
+            assumptions: vec!["the table in vlib/model.rs transcribes the ESRI whitepaper's shape type list"],
         },
         _ => return None,
     })
